@@ -76,7 +76,23 @@ def _diag_module():
            'use dora_parser::compute_line_column;', 'use dora_frontend::Vfs;', 'use crate::position::span_to_range;', '']
     out.append(S.cut_item('struct', 'ProjectConfig')['text'])
     out.append('')
-    out.append(S.cut_fn('compile_project_main', 0, len(S.src), depth=0)['text'])
+    # compile_project_main and, transitively, every top-level function of server.rs it calls (helpers a refactoring may introduce),
+    # as long as they do not need the server state
+    top = dict(S.fns_in(0, len(S.src), 0))
+    todo, done = ['compile_project_main'], []
+    while todo:
+        n = todo.pop()
+        if n in done:
+            continue
+        t = S.cut_fn(n, 0, len(S.src), depth=0)['text']
+        if n != 'compile_project_main' and re.search(r'\b(ServerState|Connection|Message|Notification|threadpool)\b', t):
+            continue
+        done.append(n)
+        out.append(t)
+        out.append('')
+        for m in re.finditer(r'\b([a-z_][a-z0-9_]*)\s*\(', t):
+            if m.group(1) in top and m.group(1) not in done:
+                todo.append(m.group(1))
     out.append("""
 pub fn vx_diagnostics(text: &str) -> Vec<Diagnostic> {
     let main = PathBuf::from("/vx-c20/main.dora");
